@@ -303,7 +303,7 @@ func genSource(rt *rapid.T, mod string, names, path []string, graph bool) Action
 }
 
 func genAction(rt *rapid.T, names, path []string, graph bool) Action {
-	w := []int{44, 16, 4, 10, 4, 5, 3, 4, 4, 2}
+	w := []int{44, 16, 4, 10, 4, 5, 3, 4, 4, 2, 3}
 	mod := pick(rt, "mod", names)
 	switch weighted(rt, "op", w) {
 	case 0:
@@ -327,8 +327,11 @@ func genAction(rt *rapid.T, names, path []string, graph bool) Action {
 		return Action{Op: "path_set", Path: genPath(rt)}
 	case 8:
 		return Action{Op: "register", Mod: mod, Via: "lua"}
-	default:
+	case 9:
 		return Action{Op: "std_probe", Mod: pick(rt, "lib", StdLibs), Via: "lua"}
+	default:
+		// the whole table is exchanged: the searcher has to look package.preload up at every require
+		return Action{Op: "preload_replace", Val: pick(rt, "val", []string{"empty", "copy"})}
 	}
 }
 
